@@ -96,6 +96,12 @@ def fam_c17(rnd, tier):
     return [(f"c17:{i}", gen.program_c17(rnd), ["canon"]) for i in range(n)]
 
 
+@family("C11")
+def fam_c11(rnd, tier):
+    n = 500 if tier == "quick" else 20000
+    return [(f"c11:{i}", gen.program_c11(rnd), ["canon"]) for i in range(n)]
+
+
 BAD_LINES = ["let = ;", "fn (", "print(;", "class { }", "let q = 1 +;", "}", "if { }", "let 5 = 5;", "return 1;", "\"unterminated", "break;"]
 ERR_LINES = ["nil + 1;", "[1][7];", "raise Error(\"repl boom\");", "3();", "nil.zz;"]
 ERR_CLASSES = ["RuntimeError", "IndexError", "Error", "RuntimeError", "RuntimeError"]
